@@ -447,6 +447,69 @@ def stage_l(chk, bindir, tier, stats):
         shutil.rmtree(root, ignore_errors=True)
 
 
+def stage_p(chk, bindir, tier, stats):
+    """Reads while the column writer is inside an index (.zfc) file of the segment being flushed (hook zfc.header_written,
+    n-th occurrence = n-th field): the read itself may only add rows of the incomplete segment with missing cells (open
+    finding, transient); every read AFTER the flush must be complete and correct - nothing a read loaded from a
+    half-written file may stick in a cache."""
+    point = "zfc.header_written"
+    for n_release in range(6):
+        for q in ("QUERY ev WHERE x >= 1", "QUERY ev"):
+            root = core.WORK / "c03" / "zfc"
+            if root.exists():
+                shutil.rmtree(root)
+            root.mkdir(parents=True)
+            steps = [{"op": "cmd", "text": 'DEFINE ev FIELDS { k: "int", x: "int" }'},
+                     {"op": "park_at", "names": [point]}]
+            for k in (1, 2, 3):
+                steps.append({"op": "cmd", "text": f'STORE ev FOR c1 PAYLOAD {{"k": {k}, "x": 1}}'})
+            for _ in range(n_release):
+                steps += [{"op": "wait_parked", "name": point, "ms": 3000}, {"op": "release", "name": point, "rearm": True}]
+            steps += [{"op": "wait_parked", "name": point, "ms": 3000, "tag": ["parked"]},
+                      {"op": "cmd", "text": q, "tag": ["during"]},
+                      {"op": "release", "name": point}, {"op": "flush_wait"},
+                      {"op": "cmd", "text": q, "tag": ["after"]},
+                      {"op": "cmd", "text": "QUERY ev WHERE k >= 1 COUNT", "tag": ["count_after"]}]
+            cfg = {"root": str(root / "db"), "fill_factor": 3, "event_per_zone": 1, "shards": 1, "k": 2, "threads": 6}
+            rc, obs, err = core.run_vdrive(bindir, {"config": cfg, "out": str(root / "obs.ndjson"), "steps": steps}, timeout=120)
+            rep = {"parked_in_zfc_number": n_release + 1, "query": q}
+            if rc != 0:
+                chk.violation(f"stage P: engine ended with {rc}: {err[-200:]}", rep)
+                continue
+            got = {}
+            for o in obs:
+                t = o.get("tag")
+                if t == ["parked"] and not o.get("parked"):
+                    got["not_parked"] = True
+                if t in (["during"], ["after"]):
+                    cols = o.get("columns", [])
+                    got[t[0]] = [(r[cols.index("context_id")], r[cols.index("k")]) for r in (o.get("rows") or [])] if "k" in cols else None
+                if t == ["count_after"]:
+                    got["count_after"] = (o.get("rows") or [[0]])[0][0]
+            if got.get("not_parked"):
+                stats["p_not_parked"] += 1          # fewer than n fields: nothing to judge
+                continue
+            stats["p_reads"] += 1
+            good = [("c1", 1), ("c1", 2), ("c1", 3)]
+            after = got.get("after")
+            if after is None or sorted(after, key=str) != good or got.get("count_after") != 3:
+                chk.violation(f"{q} AFTER the flush, following a read issued while index file number {n_release + 1} of the segment was half written: "
+                              f"rows (context, k) = {after}, COUNT = {got.get('count_after')}; stored: {good}", rep)
+                continue
+            during = got.get("during")
+            if during is None or sorted(set(during), key=str) != good or len(during) != 3:
+                desc = f"{q} while index file number {n_release + 1} of the segment is half written: rows (context, k) = {during}; stored: {good}"
+                extra = [r for r in (during or []) if r not in good]
+                if during is not None and all(g in during for g in good) and extra and all(c == "" or k is None for (c, k) in extra):
+                    if chk.classify(["C03-rows-of-incomplete-segment-with-missing-cells"], desc, rep) == "known":
+                        stats["p_known_transient"] += 1
+                else:
+                    chk.violation(desc, rep)
+            else:
+                stats["p_reads_ok"] += 1
+        shutil.rmtree(core.WORK / "c03" / "zfc", ignore_errors=True)
+
+
 def stage_m(chk, tier):
     out = {}
     for name, cfg, must_hold in (("design_atomic", "FlushRead_design.cfg", True), ("design_free", "FlushRead_design_free.cfg", True),
@@ -475,6 +538,7 @@ def run(tier):
     s2, t2 = s2 + s3, t2 + t3
     stage_t(chk, bindir, tier, stats)
     stage_l(chk, bindir, tier, stats)
+    stage_p(chk, bindir, tier, stats)
     if not chk.cov["samples"]:
         chk.sample({"forced_schedule_hooks": HOOKS, "note": "see stats for the number of schedules and reads"})
     chk.cov["states"] = s1 + s2
@@ -551,7 +615,7 @@ def stage_t(chk, bindir, tier, stats):
                 # a segment directory was being written while the read ran (hook counters flush.start / flush.written)
                 # reads issued while a segment is written can lose that segment's rows (or return them with null cells,
                 # which this stage drops) from then on: open finding, statistical signature only
-                if chk.classify(["C03-null-cells-after-read-during-segment-write"], desc + ", a segment was being written during the read", {"record": x}) == "known":
+                if chk.classify(["C03-rows-of-incomplete-segment-with-missing-cells"], desc + ", a segment was being written during the read", {"record": x}) == "known":
                     stats["known_poisoned_segment_view_concurrent"] += 1
             else:
                 chk.violation(desc, {"record": x})
